@@ -661,7 +661,7 @@ func c07Run(c *fw.Ctx, i int) {
 	}
 	drift := ingest == "rtsp" && (i/3)%5 == 0 && sp.ACodec == "aac"
 	if drift {
-		sp.NVideo = 1100 // ≈44 s: ≥2000 audio frames
+		sp.NVideo = 1500 // ≈60 s: ≥2000 audio frames, >1024 fragmented video units (the depacketiser window size) plus the tail slack
 		sp.MaxNals, sp.BigNals = 1, false
 	}
 	if sp.VCodec == "hevc-enh" {
@@ -695,6 +695,11 @@ func c07Run(c *fw.Ctx, i int) {
 		udp := (i/3)%2 == 1
 		mode := (i / 6) % 4
 		maxPayload := []int{1200, 100, 1400, 500}[r.Intn(4)]
+		if drift {
+			// long runs: (nearly) every NAL unit fragmented, so that per-unit bookkeeping of the
+			// depacketiser is exercised more than a thousand times on one session
+			maxPayload = []int{100, 200}[r.Intn(2)]
+		}
 		if sp.BigNals && maxPayload < 1200 {
 			maxPayload = 1200 // premise: a unit must fit lal's 1024-packet reassembly window
 		}
@@ -832,6 +837,7 @@ func c07Run(c *fw.Ctx, i int) {
 		tcp := (i/3)%2 == 1
 		variant := (i / 6) % 4
 		jd.desc = fmt.Sprintf("ps tcp=%v variant=%d spec=%+v", tcp, variant, sp)
+		_ = jd.desc
 		c.Describe("%s", jd.desc)
 		port := srv.FreeUdpPort()
 		if tcp {
@@ -871,6 +877,9 @@ func c07Run(c *fw.Ctx, i int) {
 			at = 0x91
 		}
 		seq := uint16(r.Intn(65536))
+		// an access unit may be carried in several PES packets of which only the first has a PTS
+		// (cameras send SPS, PPS and the slice in separate PES packets)
+		pesMax := []int{65000, 1500, 300, 65000}[(i/3+i/24)%4]
 		threeByte := (i/12)%2 == 1 // some NAL units delimited by 3-byte start codes
 		if threeByte {
 			jd.ingest = "ps-3byte-startcode"
@@ -929,7 +938,7 @@ func c07Run(c *fw.Ctx, i int) {
 					}
 					esb = append(esb, nal...)
 				}
-				ps = append(ps, ref.PsPes(0xE0, ticks, ticks, false, esb, 65000)...)
+				ps = append(ps, ref.PsPes(0xE0, ticks, ticks, false, esb, pesMax)...)
 				if !sendPs(ps, uint32(ticks)) {
 					c.Inconclusive("ps send failed")
 					return
